@@ -23,7 +23,12 @@ struct Rig {
         boost::multi_array<projection_t, 1> a(boost::extents[c.n]);
         for (unsigned i = 0; i < c.n; i++) a[i] = p[i];
         ps->setProjection(0, b, a);
+        // main() integrates the phase space at the head of every step, before the wake is computed: the grid's populations / integral then reflect the
+        // profile (any value, not 1).  Every second call does the same here, the others leave the integral at what the constructor found (1) - the wake
+        // and the spectrum are functions of the profile and the impedance, not of the grid's book-keeping
+        if ((++nset) % 2 == 0) ps->integrate();
     }
+    unsigned nset = 0;
     void set_z(const std::vector<impedance_t>& v) { z->_data = v; }
     double expected_scaling_times_N() const { return Ib * dt * physcons::c / ps->getScale(0, "Meter") / (ps->getDelta(1) * sd * E0); }
 };
